@@ -113,8 +113,6 @@ theorem sim_reads_agree_of_agree (H : AE.Hasher) (cfg : Cfg) (n : Nat) (causal :
         simpa [RV.strip] using this
       simp [RV.get, this]
 
-/-! ## witnesses (kernel-evaluated with a toy hasher; the driver runs the model with SipHash) -/
-
 /-- a hasher for kernel evaluation: the key hash is the key code, the value hash an injective code
     of the stream (`Lemmas/AntiEntropy.lean`) -/
 def toyH : AE.Hasher := AE.idealH
@@ -122,6 +120,77 @@ def toyH : AE.Hasher := AE.idealH
 def cfg2 : Cfg := { depth := 1, limit := 1000, pendingCap := 100 }
 
 def kvAt (c : Sim) (i k : Nat) : Option (Option Bytes) := c.nodes[i]?.map (fun nd => NMap.get nd.kv k)
+
+/-! ## `SET … NX / XX` through the simulator node -/
+
+/-- "a node serves what its replication state says", for histories that also contain conditional
+    SETs, with the recorder gated (`true`) or not (`false` = the code as it is) -/
+def C06_sim_serves_replicated (gate : Bool) : Prop :=
+  ∀ (H : AE.Hasher) (cfg : Cfg) (n : Nat) (causal : Bool) (routers : List (Option Gossip.Router)) (autoAE : Bool)
+    (evs : List XEv) (i : Nat) (nd : SNode),
+    ((Sim.init n causal routers autoAE).runX gate H cfg evs).nodes[i]? = some nd →
+    ∀ k, NMap.get nd.kv k = (NMap.get nd.ps.sh.keys k).bind RV.get
+
+/-- with the gate a conditional SET is a plain SET or nothing: every history is a plain history -/
+theorem runX_gated_is_run (H : AE.Hasher) (cfg : Cfg) (evs : List XEv) : ∀ (c : Sim),
+    ∃ evs' : List SEv, c.runX true H cfg evs = c.run H cfg evs' := by
+  induction evs with
+  | nil => intro c; exact ⟨[], rfl⟩
+  | cons e evs ih =>
+    intro c
+    have hstep : ∃ es : List SEv, Sim.stepX true H cfg c e = c.run H cfg es := by
+      cases e with
+      | plain e => exact ⟨[e], rfl⟩
+      | setCond i k v nx =>
+        simp only [Sim.stepX]
+        split
+        · exact ⟨[], rfl⟩
+        · split
+          · exact ⟨[.exec i (.set k v none)], rfl⟩
+          · exact ⟨[], rfl⟩
+    obtain ⟨es1, h1⟩ := hstep
+    obtain ⟨es2, h2⟩ := ih (Sim.stepX true H cfg c e)
+    refine ⟨es1 ++ es2, ?_⟩
+    simp only [Sim.runX, List.foldl_cons] at h2 ⊢
+    rw [h2, h1]
+    simp [Sim.run, List.foldl_append]
+
+/-- **with the recorder gated the statement holds for every history** (the repaired code) -/
+theorem sim_serves_replicated_gated : C06_sim_serves_replicated true := by
+  intro H cfg n causal routers autoAE evs i nd hnd k
+  obtain ⟨evs', h⟩ := runX_gated_is_run H cfg evs (Sim.init n causal routers autoAE)
+  rw [h] at hnd
+  exact sim_served_equals_replicated H cfg n causal routers autoAE evs' i nd hnd k
+
+set_option maxRecDepth 8000 in
+/-- **Known finding C06:sim:refused-set-recorded**: `SET x a; SET x b NX` on node 0 of the
+    simulator cluster: the executor refuses the second SET and keeps serving `a`, `execute` records
+    it all the same — node 0's replication state says `b`, and after one gossip round node 1 serves
+    `b`: the node that accepted the writes answers differently from its peer for ever. -/
+theorem sim_refused_set_recorded_counterexample :
+    let c := (Sim.init 2 false [] false).runX false toyH cfg2
+      [ .plain (.exec 0 (.set kX [97] none)), .setCond 0 kX [98] true, .plain (.gossip []), .plain (.advance 10), .plain (.gossip []) ]
+    kvAt c 0 kX = some (some [97]) ∧ kvAt c 1 kX = some (some [98]) ∧
+    c.nodes[0]?.map (fun nd => (NMap.get nd.ps.sh.keys kX).bind RV.get) = some (some [98]) ∧ c.queue = [] := by
+  decide
+
+set_option maxRecDepth 8000 in
+theorem C06_sim_serves_replicated_ungated_false : ¬ C06_sim_serves_replicated false := by
+  intro h
+  have hbad : ((Sim.init 2 false [] false).runX false toyH cfg2
+      [ .plain (.exec 0 (.set kX [97] none)), .setCond 0 kX [98] true ]).nodes[0]?.map
+        (fun nd => decide (NMap.get nd.kv kX = (NMap.get nd.ps.sh.keys kX).bind RV.get)) = some false := by
+    decide
+  cases hnd : ((Sim.init 2 false [] false).runX false toyH cfg2
+      [ .plain (.exec 0 (.set kX [97] none)), .setCond 0 kX [98] true ]).nodes[0]? with
+  | none => rw [hnd] at hbad; cases hbad
+  | some nd =>
+    have := h toyH cfg2 2 false [] false _ 0 nd hnd kX
+    rw [hnd] at hbad
+    simp only [Option.map_some, Option.some.injEq, decide_eq_false_iff_not] at hbad
+    exact hbad this
+
+/-! ## witnesses (kernel-evaluated with a toy hasher; the driver runs the model with SipHash) -/
 
 /-- three nodes, node 2 cut off from both others; node 0 accepts `SET x a`, `SET x b`; a gossip
     round ships them to node 1 only (the flights to node 2 are dropped at the partition check).
